@@ -143,6 +143,29 @@ func cmdCheck(args []string) int {
 			worst = rc
 		}
 	}
+	if af := os.Getenv("THUNDERLINT_ANCHORS"); af != "" {
+		type anchor struct {
+			Pkg, Name, File string
+			Start, End      int
+		}
+		var out []anchor
+		for f := range p.Anchors {
+			syn := f.Syntax()
+			if syn == nil {
+				continue
+			}
+			a, b := p.Fset.Position(syn.Pos()), p.Fset.Position(syn.End())
+			out = append(out, anchor{an.RelPkg(f), an.QualName(f), a.Filename, a.Line, b.Line})
+		}
+		sort.Slice(out, func(i, j int) bool {
+			if out[i].File != out[j].File {
+				return out[i].File < out[j].File
+			}
+			return out[i].Start < out[j].Start
+		})
+		b, _ := json.MarshalIndent(out, "", " ")
+		os.WriteFile(af, b, 0o644)
+	}
 	return worst
 }
 
